@@ -39,6 +39,8 @@ Inductive step : state -> state -> Prop :=
 | StMarks s ist' :
     length ist' = length (ist s) ->
     (forall i, option_map present (nth_error ist' i) = option_map present (nth_error (ist s) i)) ->
+    (* a conflict mark names a position of the line as the winner, or was there before *)
+    (forall i w, nth_error ist' i = Some (Conflict w) -> w < length ist' \/ nth_error (ist s) i = Some (Conflict w)) ->
     step s (set_ist s ist').
 
 Inductive reach : state -> state -> Prop :=
@@ -145,11 +147,13 @@ Proof.
   eapply reach_trans; [exact H1|apply IH]. intros w Hw. apply Hk. right. exact Hw.
 Qed.
 
-Lemma save_conflicts_reach s loser win : reach s (save_conflicts s loser win).
+Lemma save_conflicts_reach s loser win : win < length (ist s) -> reach s (save_conflicts s loser win).
 Proof.
-  apply reach_one. unfold save_conflicts. apply StMarks.
+  intros Hw. apply reach_one. unfold save_conflicts. apply StMarks.
   - apply save_conflicts_go_length.
   - intros i. apply save_conflicts_go_present.
+  - intros i w H. apply save_conflicts_go_conflict in H. destruct H as [->|H]; [left|right; exact H].
+    rewrite save_conflicts_go_length. exact Hw.
 Qed.
 
 (* ------------------------------------------------------------------ evaluators *)
@@ -308,8 +312,11 @@ Proof.
   intros Ha Hb. unfold this_or_that.
   destruct (Nat.compare (depth sa) (depth sb)); cbn; auto.
   destruct ra, rb; cbn; auto using reach_refl.
-  all: match goal with |- context [let '(_, _) := ?x in _] => destruct x as [pick ix] end.
+  all: match goal with |- context [let '(_, _) := ?x in _] => destruct x as [pick ix] eqn:Epw end.
   all: destruct pick, ix; cbn; auto; (eapply reach_trans; [|apply save_conflicts_reach]); auto.
+  all: match type of Epw with
+       | (if ?c then _ else _) = _ => destruct c; [discriminate Epw|]; apply pick_winner_lt in Epw; tauto
+       end.
 Qed.
 
 Lemma or_reach eva evb : ev_reach eva -> ev_reach evb -> ev_reach (or_body eva evb).
